@@ -21,10 +21,18 @@ META = {
             "(binary64 by Flocq) and alpha in [0,1] the filter is monotone in state and inputs over every history, preserves "
             "sign, and keeps [lo,hi] invariant iff it does in the two constant corner cases; under the standard model "
             "|rnd x-x|<=eps|x|+eta one step stays in the hull enlarged by ((1+eps)^3-1)A+eta((1+eps)^2 A+2(1+eps)+1), "
-            "A>=|lo|,|hi|. Tie: bit-exact binary64 run of the same terms vs the C.",
+            "A>=|lo|,|hi|. Tie: bit-exact binary64 run of the same terms vs the C. Glue around the modelled core (differential tests, "
+            "not theorems): the 11 C++ member functions of a_tf, a_lpf and a_hpf (list read from the headers on every run; those of "
+            "a_lpf/a_hpf repeat the C inline bodies) against the C functions they stand for, all state and both delay lines compared bit "
+            "for bit; and one driver generic in a_real built as float, double and long double with ASan+UBSan: a_tf_init/set_num/"
+            "set_den/iter/zero (delay lines pre-filled with 777 in one pool with guard bytes, so 'starts from zero state' and a "
+            "clear of the wrong size are observable), a_lpf/a_hpf init/iter/zero on dyadic data whose every intermediate fits binary32 "
+            "must print exactly the difference equations' values in all three builds; a_lpf_gen/a_hpf_gen (pi) within 1e-5 + 1e-6.",
     "note": "Trusted: Coq kernel/vm_compute with primitive floats; real-number axioms listed by Print Assumptions; the "
             "'same term, different NumOps instance' argument; hand transcription coq/C16/FilterDefs.v validated bit for bit on "
-            "the generated cases only; memmove modelled as list shift. Float saturation of gen for extreme fc*ts is checked on a grid, not proved.",
+            "the generated cases only; memmove modelled as list shift. Float saturation of gen for extreme fc*ts is checked on a grid, not proved. The glue runs "
+            "(tools/vglue.py, harness/glue/) are differential tests on generated inputs, not theorems; the float and long double builds "
+            "are not modelled in Rocq.",
     "technique": "Rocq proof over R (list induction with explicit histories, nra, Coquelicot limits) + lpf/hpf regenerated from the headers by a translator and re-tied by conversion on every run, a_tf_iter/a_tf_zero unrolled for all orders 0..3 x 0..3 and proved equal to the list model + bit-exact primitive-float model vs C correspondence",
 }
 
@@ -206,3 +214,4 @@ def run(ctx):
     ctx.cov["correspondence_mismatches"] = nd
     for c in cases[:: max(1, len(cases) // 4)][:4]:
         ctx.sample({"case": c[0][:160], "model_expr": c[1][:160]})
+    __import__("vglue").glue(ctx, "C16")   # glue around the modelled core: C++ member wrappers + float / long double builds (differential tests, tools/vglue.py)
